@@ -118,6 +118,10 @@ class Union(BackedView):
             return None
 
         def handle_change(v: View) -> None:
+            # Once the union holds another type of option, this view of its former value is stale:
+            # writing its backing into the value slot would leave a value that does not match the selector.
+            if self.selected_type() is not selected_type:
+                raise Exception("stale view: the union no longer holds the option this value was obtained from")
             self.set_backing(self.get_backing().setter(LEFT_GINDEX)(v.get_backing()))
 
         return selected_type.view_from_backing(value_node, handle_change)
